@@ -293,18 +293,13 @@ theorem read_keyword_wins (name : FName) :
 
 /-! ### copy shares no mutable state — in the allocation-id model -/
 
-/-
-  Full-strength statement: for every labelled value v whose ids are < n,
-      (v.copy n).1.ids ∩ v.ids = ∅ .
-  FALSE for the current code: a Python list is passed through `make_serializable` and `deserialize`
-  as the same object (`copy_fresh_counterexample`; recorded finding `C07:copy-shares-list`).
--/
-
-/-- Every mutable container of the copy of a list-free value is freshly allocated. -/
-theorem copy_fresh_partial (v : LVal) (n : Nat) (hn : ∀ i ∈ v.ids, i < n) (hl : v.noList = true) :
+/-- Every mutable container of the copy is freshly allocated: the copy shares no list, dict, set or
+    array with its source (full strength: for every labelled value, lists included — they are
+    rebuilt element-wise since the fix). -/
+theorem copy_fresh (v : LVal) (n : Nat) (hn : ∀ i ∈ v.ids, i < n) :
     ∀ i ∈ (v.copy n).1.ids, i ∉ v.ids := by
   intro i hi hmem
-  have := (copy_ids_ge v n hl).2 i hi
+  have := (copy_ids_ge v n).2 i hi
   have := hn i hmem
   omega
 
@@ -317,19 +312,20 @@ theorem copy_value (v : LVal) (n : Nat) (h : v.erase.WF id = true) :
   rw [normF_id_jsonLike _ (jsonLike_ms id v.erase h)] at this
   exact this
 
-/-- Counter-example: a list-valued attribute (e.g. `active_dims = [0, 1]` of the kernel) is the same
-    object in the source and in the copy. -/
-theorem copy_fresh_counterexample :
+/-- Regression of repaired defect F3: a list-valued attribute (`active_dims = [0, 1]`) of the copy
+    is a new object. -/
+theorem copy_fresh_list_regression :
     let v := LVal.list 7 [.atom (.int 0), .atom (.int 1)]
-    (∀ i ∈ v.ids, i < 100) ∧ 7 ∈ (v.copy 100).1.ids ∧ 7 ∈ v.ids := by decide
+    (v.copy 100).1.ids = [100] ∧ 7 ∉ (v.copy 100).1.ids := by decide
 
-/-- All attribute values of a predictor (own and of its kernel nodes), copied in sequence. -/
-theorem copy_fresh_attrs : ∀ (vs : List LVal) (n : Nat), (∀ v ∈ vs, v.noList = true) →
+/-- All attribute values of a predictor (own and of its kernel nodes), copied in sequence: every id
+    of the copies is fresh. -/
+theorem copy_fresh_attrs : ∀ (vs : List LVal) (n : Nat),
     n ≤ (copyAttrs vs n).2 ∧ ∀ w ∈ (copyAttrs vs n).1, ∀ i ∈ w.ids, n ≤ i
-  | [], n, _ => by simp [copyAttrs]
-  | v :: r, n, h => by
-    have h1 := copy_ids_ge v n (h v (by simp))
-    have h2 := copy_fresh_attrs r (v.copy n).2 (fun w hw => h w (by simp [hw]))
+  | [], n => by simp [copyAttrs]
+  | v :: r, n => by
+    have h1 := copy_ids_ge v n
+    have h2 := copy_fresh_attrs r (v.copy n).2
     simp only [copyAttrs, List.mem_cons]
     refine ⟨by omega, ?_⟩
     intro w hw i hi
@@ -408,6 +404,6 @@ example : ∃ data, predData demo = .ok data ∧ PyVal.WFK canonNaN data = true 
   ⟨_, rfl, by decide, by decide, by decide,
     by simp [versionLt14, parseVersion, parseVersionAux, digitVal?, releaseLt]⟩
 
-example : (LVal.dict 3 [("a", .nparr 4 .f64 [1] [.f 0]), ("b", .set 5 [.int 1])]).noList = true := by decide
+example : ∀ i ∈ (LVal.dict 3 [("a", .nparr 4 .f64 [1] [.f 0]), ("b", .list 5 [.atom (.int 1)])]).ids, i < 6 := by decide
 
 end Mellon.C07
